@@ -524,7 +524,10 @@ where
         }
     }
     let mut machinery_error: Option<String> = None;
-    // re-execute before reporting
+    // re-execute before reporting. A violation that does not reproduce when its case is run
+    // again in isolation is still a violation (the implementation gave that answer once): it
+    // then depended on something other than the arguments - call history or other threads -
+    // and is reported as such.
     let mut confirmed: Vec<Violation> = Vec::new();
     for v in real.iter().take(10) {
         let again = replay(&v.case);
@@ -534,14 +537,13 @@ where
         {
             confirmed.push(v.clone());
         } else {
-            machinery_error = Some(format!(
-                "violation did not reproduce on re-execution: {:?} first={}/{} again={:?}",
-                v.case.to_json().to_string(),
-                v.expected,
+            let mut w = v.clone();
+            w.actual = format!(
+                "{} [NOT reproduced when this case is re-run in isolation (re-run gave {}): the answer depended on call history or concurrency]",
                 v.actual,
-                again.iter().map(|w| (&w.expected, &w.actual)).collect::<Vec<_>>()
-            ));
-            break;
+                if again.is_empty() { "no violation".to_string() } else { again.iter().map(|x| x.actual.clone()).collect::<Vec<_>>().join(" / ") }
+            );
+            confirmed.push(w);
         }
     }
     let mut replay_paths: Vec<String> = Vec::new();
